@@ -217,3 +217,62 @@ func (p *Prog) walkBodies(fn *ssa.Function, linkFields map[string]bool) []walkBo
 	}
 	return out
 }
+
+// treeDescent: fn, a method of tree node type *T, visits the whole subtree below its receiver — it calls itself
+// (directly, through a closure, or through a helper it calls) on an element of a []*T collection obtained from the
+// receiver, or it runs a work list that is extended with such collections. Returns a description of what was found.
+func (p *Prog) treeDescent(fn *ssa.Function) (bool, string) {
+	if fn == nil || fn.Signature.Recv() == nil {
+		return false, "not a method"
+	}
+	recvT := fn.Signature.Recv().Type()
+	// candidates: fn itself and the helpers it hands its receiver to (the recursion may live in a helper)
+	cands := []*ssa.Function{fn}
+	for _, h := range p.deepFind(fn, func(in ssa.Instruction) bool {
+		c, ok := in.(ssa.CallInstruction)
+		if !ok || calleeOf(c) == nil || !hasModPrefix(calleeOf(c)) || len(c.Common().Args) == 0 {
+			return false
+		}
+		return types.Identical(c.Common().Args[0].Type(), recvT)
+	}, 2) {
+		cands = append(cands, calleeOf(h.In.(ssa.CallInstruction)))
+	}
+	for _, cand := range cands {
+		for _, h := range p.deepFind(cand, func(in ssa.Instruction) bool {
+			c, ok := in.(ssa.CallInstruction)
+			return ok && calleeOf(c) != nil && sameFunc(calleeOf(c), cand)
+		}, 2) {
+			args := h.In.(ssa.CallInstruction).Common().Args
+			if len(args) == 0 || !types.Identical(args[0].Type(), recvT) {
+				continue
+			}
+			t := liftTerm(termOf(args[0]), h.Chain)
+			elem := t.contains(func(x *Term) bool { return x.Op == "index" || x.Op == "elem" || x.Op == "extract" })
+			if elem && (rootParam(t) == 0 || len(h.Chain) > 0) {
+				return true, "recursive call of " + cand.Name() + " on " + trunc(t.String(), 100)
+			}
+			if _, isPhi := args[0].(*ssa.Phi); isPhi {
+				return true, "recursive call on a loop-carried node"
+			}
+		}
+	}
+	// work list: append(list, node.children...) inside a loop
+	for _, h := range p.deepFind(fn, func(in ssa.Instruction) bool {
+		c, ok := in.(*ssa.Call)
+		if !ok {
+			return false
+		}
+		b, isB := c.Call.Value.(*ssa.Builtin)
+		if !isB || b.Name() != "append" || len(c.Call.Args) != 2 {
+			return false
+		}
+		sl, ok := c.Call.Args[1].Type().Underlying().(*types.Slice)
+		return ok && types.Identical(sl.Elem(), recvT) && loopHeaderOf(c.Block()) != nil
+	}, 1) {
+		t := termOf(h.In.(*ssa.Call).Call.Args[1])
+		if rootParam(t) != 0 || t.contains(func(x *Term) bool { return x.Op == "index" || x.Op == "phi" }) {
+			return true, "work list extended with " + trunc(t.String(), 100)
+		}
+	}
+	return false, "no recursive call on a child node and no work list"
+}
